@@ -72,11 +72,39 @@ FORMS = (
     "macro", "macroarg", "macrotail",
 )  # fmt: skip
 MACRO_FORMS = ("macro", "macroarg", "macrotail")
+ALL_FORMS = FORMS + ("envplain", "envbrace", "envat", "envdq", "envdqmid", "envdq2", "envsq", "envf", "envgluesuf", "envgluepre")
 # sub-forms that are one syntactic form of the statement share the <form> part of the key
-FAMILY = {"gluepre": "glue", "gluesuf": "glue", "glueboth": "glue", "gluelist": "glue", "macroarg": "macro", "macrotail": "macro", "tsq": "triple", "tdq": "triple", "ffield": "f", "fval": "f"}
+FAMILY = {"envdqmid": "envdq", "envdq2": "envdq", "envgluesuf": "envglue", "envgluepre": "envglue", "gluepre": "glue", "gluesuf": "glue", "glueboth": "glue", "gluelist": "glue", "macroarg": "macro", "macrotail": "macro", "tsq": "triple", "tdq": "triple", "ffield": "f", "fval": "f"}
 POSITIONS = ("mid", "first", "last", "redir", "capt")
-PATHS = ("t", "u", "c")
-CMD = {"t": "rect", "u": "recu", "c": "recc"}
+# delivery paths.  direct: the command word IS the recorder (threaded callable alias, unthreaded
+# callable alias, real child found on $PATH).  aliased: the command word is a list alias / a string
+# alias that resolves to the recorder / the child and contributes one fixed argument of its own.
+DIRECT = ("t", "u", "c")
+ALIASED = ("lu", "su", "lc")
+PATHS = DIRECT + ALIASED
+CHILD = ("c", "lc")
+CMD = {"t": "rect", "u": "recu", "c": "recc", "lu": "lrecu", "su": "srecu", "lc": "lrecc"}
+FIX = "FIX"  # the alias's own argument; the user's arguments must follow it untouched
+
+# ---------------------------------------------------------------- part B: values of variables
+# A variable Q is given every value made of <= n of these tokens and is then USED in the forms where
+# substitution is documented; the value must arrive verbatim, substituted exactly once.
+ENV_W = "a* w"  # value of $W (a second expansion of a `$W` inside Q's value would show, and glob)
+VTOKENS = ("a", " ", "$W", "$", "~", "*", "$Q", "${'W'}")
+VCLASS = {"a": "alpha", " ": "space", "$W": "varref", "$": "dollar", "~": "tilde", "*": "star", "$Q": "selfref", "${'W'}": "quotedref"}
+# form -> (argument source, prefix, suffix): delivered argument must be prefix + value + suffix
+ENV_FORMS = {
+    "envplain": ("$Q", "", ""),
+    "envbrace": ("${'Q'}", "", ""),
+    "envat": ("@($Q)", "", ""),
+    "envdq": ('"$Q"', "", ""),
+    "envdqmid": ('"x $Q y"', "x ", " y"),
+    "envdq2": ('"$Q $W"', "", " " + ENV_W),
+    "envsq": ("'$Q'", "", ""),
+    "envf": ("f'$Q'", "", ""),
+    "envgluesuf": ("$Q/s", "", "/s"),
+    "envgluepre": ("p/$Q", "p/", ""),
+}
 
 
 def char_class(ch):
@@ -90,6 +118,8 @@ def char_class(ch):
 
 
 def classes_of(v):
+    if isinstance(v, tuple):  # part B: a tuple of VTOKENS
+        return "+".join(VCLASS[t] for t in v) if v else "empty"
     return "+".join(char_class(c) for c in v) if v else "empty"
 
 
@@ -97,12 +127,23 @@ def _subsequences(s):
     out = set()
     for r in range(len(s) + 1):
         for idx in itertools.combinations(range(len(s)), r):
-            out.add("".join(s[i] for i in idx))
+            sub = [s[i] for i in idx]
+            out.add(tuple(sub) if isinstance(s, tuple) else "".join(sub))
     return out
 
 
 def _order_key(v):
+    if isinstance(v, tuple):
+        return (len(v), [VTOKENS.index(t) for t in v])
     return (len(v), [ALPHABET.index(c) if c in ALPHABET else 1000 + ord(c) for c in v])
+
+
+def enumerate_env_values(maxtok):
+    """Every non-empty sequence of <= maxtok VTOKENS (closed under deletion), shortest first."""
+    vals = []
+    for n in range(1, maxtok + 1):
+        vals.extend(itertools.product(VTOKENS, repeat=n))
+    return vals
 
 
 def enumerate_values(maxlen):
@@ -209,6 +250,8 @@ def render_arg(form, v, pos="mid"):
 
 def field_value(form, v):
     """Value bound to the Python name `x` for the f-string forms."""
+    if form in ENV_FORMS:
+        return None
     if form == "ffield":
         return "-"
     if form == "fval":
@@ -231,6 +274,8 @@ def _balanced(v):
 
 def render_line(form, pos, v, cmd):
     """(source line, python-self-check literal or None) or None if the combination is skipped."""
+    if form in ENV_FORMS:
+        return f"{cmd} L {ENV_FORMS[form][0]} R\n" if pos == "mid" and v else None
     if form in MACRO_FORMS:
         if "\n" in v or not v.strip(" \t"):
             return None  # a macro is one line; the empty macro is not specified
@@ -267,7 +312,7 @@ def render_line(form, pos, v, cmd):
 def self_check(form, v):
     """The generated literal must denote `v` in plain Python (the quoting function is part of the
     harness, so a mistake there is a tool error, never a finding)."""
-    if form == "plain" or form.startswith(("at", "glue", "macro")):
+    if form == "plain" or form.startswith(("at", "glue", "macro", "env")):
         return
     a = render_arg(form, v)
     if a is None:
@@ -412,6 +457,12 @@ def expected_args(form, v, expand_env, env, home):
 
 
 def expected_argv(form, pos, v, expand_env, env, home):
+    if form in ENV_FORMS:
+        # the value substituted verbatim, exactly once: never re-expanded, globbed or re-split.
+        # (`~` leading the RESULT may or may not be expanded: the order of the two documented
+        # expansions is not documented)
+        base = ENV_FORMS[form][1] + "".join(v) + ENV_FORMS[form][2]
+        return [{"L"}, {base} | ref_tilde(base, home), {"R"}]
     if form in MACRO_FORMS:
         t = v.strip(" \t")
         if form == "macro":
@@ -505,9 +556,12 @@ def _init_worker():
     os.chmod(script, 0o755)
     os.chdir(cwd)
     os.environ["HOME"] = home
-    xsh = load_session(data_dir=home, path=[bindir], env={"HOME": home, "a": ENV_A, "V": ENV_V, "XONSH_SUBPROC_ARG_EXPANDUSER": True})
+    xsh = load_session(data_dir=home, path=[bindir], env={"HOME": home, "a": ENV_A, "V": ENV_V, "W": ENV_W, "XONSH_SUBPROC_ARG_EXPANDUSER": True})
     xsh.aliases["rect"] = _rec_t
     xsh.aliases["recu"] = unthreadable(_rec_u)
+    xsh.aliases["lrecu"] = ["recu", FIX]  # list alias -> callable alias
+    xsh.aliases["srecu"] = "recu " + FIX  # string alias -> callable alias
+    xsh.aliases["lrecc"] = ["recc", FIX]  # list alias -> real child
     _W.update(xsh=xsh, home=home, argv_file=argv_file, env={"a": ENV_A, "V": ENV_V, "HOME": home}, cwd=cwd)
     signal.signal(signal.SIGALRM, _alarm)
 
@@ -516,32 +570,36 @@ def _norm(args):
     return [a if isinstance(a, str) else f"<{type(a).__name__}>{a!r}" for a in args]
 
 
-def run_source(src, path, expand_env, xval=None):
+def run_source(src, path, expand_env, xval=None, qval=None, alarm_s=20.0):
     """Execute one source line on one delivery path; returns the argv list or a failure tuple."""
     xsh = _W["xsh"]
     xsh.env["EXPAND_ENV_VARS"] = expand_env
     xsh.ctx.pop("x", None)
     if xval is not None:
         xsh.ctx["x"] = xval
+    if qval is not None:
+        xsh.env["Q"] = qval
+    elif "Q" in xsh.env:
+        del xsh.env["Q"]
     del _REC[:]
     af = _W["argv_file"]
-    if path == "c":
+    if path in CHILD:
         with contextlib.suppress(FileNotFoundError):
             os.unlink(af)
     err = io.StringIO()
-    signal.setitimer(signal.ITIMER_REAL, 20.0)
+    signal.setitimer(signal.ITIMER_REAL, alarm_s)
     try:
         with contextlib.redirect_stderr(err), contextlib.redirect_stdout(io.StringIO()):
             xsh.execer.exec(src, glbs=xsh.ctx, locs=None)
     except _Timeout:
-        return ("hang", "no result within 20 s")
+        return ("hang", "no result within the alarm")
     except SystemExit as e:
         return ("exc", "SystemExit", str(e)[:120])
     except Exception as e:  # noqa: BLE001
         return ("exc", type(e).__name__, str(e)[:160])
     finally:
         signal.setitimer(signal.ITIMER_REAL, 0)
-    if path == "c":
+    if path in CHILD:
         try:
             with open(af, "rb") as f:
                 raw = f.read()
@@ -565,9 +623,20 @@ def run_case(form, pos, e1, v, paths):
         return None
     exp = expected_argv(form, pos, v, e1, _W["env"], _W["home"])
     obs = {}
+    is_env = form in ENV_FORMS
     for p in paths:
         src = render_line(form, pos, v, CMD[p])
-        obs[p] = run_source(src, p, e1, field_value(form, v))
+        # part B never waits on anything: 3 s is a hang (1 s once this worker has seen one, so that
+        # a looping implementation cannot stretch the run by minutes)
+        alarm_s = (1.0 if _W.get("hung") else 3.0) if is_env else 20.0
+        o = run_source(src, p, e1, field_value(form, v), "".join(v) if is_env else None, alarm_s)
+        if p in ALIASED and isinstance(o, list):
+            # the alias's own fixed argument comes first; what follows is the user's argv
+            o = o[1:] if o[:1] == [FIX] else ("noprefix", repr(o)[:200])
+        obs[p] = o
+        if isinstance(o, tuple) and o[0] == "hang":
+            _W["hung"] = True
+            break  # do not spend the alarm again on every other path
     return {"src": first, "exp": exp, "obs": obs}
 
 
@@ -577,27 +646,37 @@ _PLAN = None  # set by run(): function value -> list of (form, pos, e1, paths)
 def _plan_for(v, thorough):
     """Which (form, position, $EXPAND_ENV_VARS, delivery paths) are executed for value v.  A case
     that fails on the paths listed here is re-run on the remaining paths (see _check_value), so
-    every reported failure carries the observation of all three delivery paths."""
+    every reported failure carries the observation of all delivery paths."""
+    if isinstance(v, tuple):  # part B: value of a variable
+        # (unthreaded alias first: a hang is recorded on the first path only, keep that the same one)
+        return [(form, "mid", True, ("u", "lu", "t", "c", "su", "lc") if len(v) == 1 else ("u", "lu")) for form in ENV_FORMS]
     tiny = len(v) <= 1 or v in _PROBE_SET
     short = tiny or len(v) <= 2
+    expandable = "$" in v or "~" in v
     plan = []
     for form in FORMS:
         # base sweep: every value, middle position, default configuration
-        plan.append((form, "mid", True, PATHS if (tiny or (thorough and short)) else ("u",)))
+        if tiny or (thorough and short):
+            paths = PATHS
+        else:
+            paths = ("u", "lu") if expandable else ("u",)
+        plan.append((form, "mid", True, paths))
         # $EXPAND_ENV_VARS = False: expansion forms must stop expanding `$`, nothing else may change
         if form not in MACRO_FORMS:
             if tiny and thorough:
-                plan.append((form, "mid", False, PATHS))
-            elif tiny or (thorough and short) or "$" in v or "~" in v:
+                plan.append((form, "mid", False, DIRECT + ("lu",)))
+            elif tiny:
+                plan.append((form, "mid", False, ("u", "lu")))
+            elif (thorough and short) or expandable:
                 plan.append((form, "mid", False, ("u",)))
         # positions (redirect / capture change the plumbing around the command, so the delivery
         # path matters there; first / last only move the argument)
         if tiny or (thorough and short):
             for pos in POSITIONS[1:]:
                 if thorough:
-                    paths = PATHS if tiny else ("u",)
+                    paths = DIRECT if tiny else ("u",)
                 else:
-                    paths = PATHS if (len(v) <= 1 and pos in ("redir", "capt")) else ("u",)
+                    paths = DIRECT if (len(v) <= 1 and pos in ("redir", "capt")) else ("u",)
                 plan.append((form, pos, True, paths))
     return plan
 
@@ -610,7 +689,7 @@ def _check_value(v):
     fails = []
     evals = cases = 0
     by_path = dict.fromkeys(PATHS, 0)
-    by_kind = {"mid": 0, "E0": 0, "pos": 0}
+    by_kind = {"mid": 0, "E0": 0, "pos": 0, "env": 0}
     for form, pos, e1, paths in _plan_for(v, _THOROUGH):
         if pos == "mid" and e1:
             self_check(form, v)
@@ -618,9 +697,10 @@ def _check_value(v):
         if r is None:
             continue
         cases += 1
-        by_kind["E0" if not e1 else ("mid" if pos == "mid" else "pos")] += 1
+        by_kind["env" if form in ENV_FORMS else "E0" if not e1 else ("mid" if pos == "mid" else "pos")] += 1
         exp = r["exp"]
-        if len(paths) < len(PATHS) and any(not matches(o, exp) for o in r["obs"].values()):
+        hung = any(isinstance(o, tuple) and o[0] == "hang" for o in r["obs"].values())
+        if len(paths) < len(PATHS) and not hung and any(not matches(o, exp) for o in r["obs"].values()):
             rest = tuple(p for p in PATHS if p not in paths)
             r["obs"].update(run_case(form, pos, e1, v, rest)["obs"])
         evals += len(r["obs"])
@@ -669,8 +749,15 @@ def attribute(fails):
         pos, e1, v = best
         m, sig = idx[(form, pos, e1, path, v)]
         ran = m["ran"]
-        same = [p for p in ran if m["bad"].get(p) == sig]
-        ppart = "all" if len(same) == len(ran) and len(ran) > 1 else path
+        same = {p for p in ran if m["bad"].get(p) == sig}
+        if same == set(ran) and len(ran) > 1:
+            ppart = "all"
+        elif len(same) > 1 and same == set(ran) & set(ALIASED):
+            ppart = "aliased"  # exactly the paths whose command word is a list / string alias
+        elif len(same) > 1 and same == set(ran) & set(DIRECT):
+            ppart = "direct"
+        else:
+            ppart = path
         fk = FAMILY.get(form, form) + ("" if pos == "mid" else "@" + pos) + ("" if e1 else "@E0")
         key = f"{fk}:{ppart}:{classes_of(v)}:{sig}"
         case_id = (f["form"], f["pos"], f["e1"], f["v"])
@@ -690,7 +777,10 @@ def run(ctx):
     _PROBE_SET = set()
     for p in PROBES:
         _PROBE_SET |= _subsequences(p)
-    ctx.log(f"{len(values)} values (len<={maxlen} over {len(ALPHABET)} characters + probe closure) x {len(FORMS)} forms")
+    env_values = enumerate_env_values(maxlen)
+    ctx.log(f"{len(values)} values (len<={maxlen} over {len(ALPHABET)} characters + probe closure) x {len(FORMS)} forms; {len(env_values)} variable values (<={maxlen} of {len(VTOKENS)} tokens) x {len(ENV_FORMS)} uses")
+    n_a = len(values)
+    values = values + env_values
     res = common.pmap(_check_value, values, ctx.jobs, chunk=1, init=_init_worker, seed=ctx.seed)
     fails = [f for r in res for f in r["fails"]]
     evals = sum(r["evals"] for r in res)
@@ -698,16 +788,16 @@ def run(ctx):
     nontrivial = 0
     for v, r in zip(values, res):
         if r["cases"] and any(not (c.isascii() and c.isalnum()) for c in v):
-            nontrivial += 1
+            nontrivial += 1  # (for part B: c is a token; every value with a token other than `a`)
     keyed = attribute(fails)
     # simplest case first per key (the first one becomes the artefact): short value, base position, default config
-    order = sorted(keyed, key=lambda kc: (kc[0], len(kc[1][3]), kc[1][1] != "mid", not kc[1][2], _order_key(kc[1][3]), FORMS.index(kc[1][0]), kc[1][1]))
+    order = sorted(keyed, key=lambda kc: (kc[0], len(kc[1][3]), kc[1][1] != "mid", not kc[1][2], _order_key(kc[1][3]), ALL_FORMS.index(kc[1][0]), kc[1][1]))
     for key, case_id in order:
         f, minimal = keyed[(key, case_id)]
         ctx.violation(
             key=key,
             clause="argv delivered == argv written",
-            case={"form": f["form"], "pos": f["pos"], "expand_env_vars": f["e1"], "value": f["v"], "paths": f["ran"], "failing_paths": f["bad"], "source": f["src"], "minimal_value": minimal},
+            case={"form": f["form"], "pos": f["pos"], "expand_env_vars": f["e1"], "value": list(f["v"]) if isinstance(f["v"], tuple) else f["v"], "paths": f["ran"], "failing_paths": f["bad"], "source": f["src"], "minimal_value": list(minimal) if isinstance(minimal, tuple) else minimal},
             observed=f["obs"],
             expected=f["exp"],
             note="expected = list of arguments, each with the set of values the documentation allows",
@@ -715,10 +805,13 @@ def run(ctx):
     ctx.log(f"{cases} cases, {evals} executions, {len(fails)} failing cases -> {len({k for k, _ in keyed})} keys")
     # evidence samples: a deterministic handful of real cases, re-run here
     _init_worker()
-    pool = [v for v in values if len(v) == maxlen and not v.isalnum()]
+    pool = [v for v in values[:n_a] if len(v) == maxlen and not v.isalnum()]
     show = ("dq", "raw", "ffield", "atlist", "gluesuf", "macroarg", "tsq", "plain", "f", "atgen")
     k = 0
-    for v in common.pick_samples(pool, ctx.seed, 10):
+    for form, v in (("envdq", ("$W", "$")), ("envgluesuf", ("*",))):
+        r = run_case(form, "mid", True, v, ("u", "lu"))
+        ctx.sample({"form": form, "Q": "".join(v), "W": ENV_W, "source": r["src"].replace("CMD", "recu"), "observed_direct": _scrub(r["obs"]["u"]), "observed_through_list_alias": _scrub(r["obs"]["lu"]), "expected_allowed_per_argument": exp_json(r["exp"])})
+    for v in common.pick_samples(pool, ctx.seed, 8):
         for j in range(len(show)):
             form = show[(k + j) % len(show)]
             r = run_case(form, "mid", True, v, ("u",))
@@ -727,15 +820,16 @@ def run(ctx):
                 k += j + 1
                 break
     by_path = {p: sum(r["by_path"][p] for r in res) for p in PATHS}
-    by_kind = {k: sum(r["by_kind"][k] for r in res) for k in ("mid", "E0", "pos")}
+    by_kind = {k: sum(r["by_kind"][k] for r in res) for k in ("mid", "E0", "pos", "env")}
     if ctx.thorough:
-        plan_txt = "length<=2 and probes: middle position on all three delivery paths, $EXPAND_ENV_VARS=False and the 4 other positions on the unthreaded alias (all three paths for length<=1 and the probes); length 3: middle position on the unthreaded alias, plus $EXPAND_ENV_VARS=False when the value contains $ or ~"
+        plan_txt = "length<=2 and probes: middle position on all six delivery paths, $EXPAND_ENV_VARS=False and the 4 other positions on the unthreaded alias (length<=1 and the probes: on the three direct paths, $EXPAND_ENV_VARS=False also through the list alias); length 3: middle position on the unthreaded alias, plus through the list alias and with $EXPAND_ENV_VARS=False when the value contains $ or ~"
     else:
-        plan_txt = "middle position on the unthreaded alias for every value; length<=1 and the probes also on the threaded alias and the real child, with $EXPAND_ENV_VARS=False and in the 4 other positions (redirect/capture positions on all three paths for length<=1); length-2 values containing $ or ~ also with $EXPAND_ENV_VARS=False"
+        plan_txt = "middle position on the unthreaded alias for every value; length<=1 and the probes on all six delivery paths, with $EXPAND_ENV_VARS=False directly and through the list alias, and in the 4 other positions (redirect/capture positions on the three direct paths for length<=1); length-2 values containing $ or ~ also through the list alias and with $EXPAND_ENV_VARS=False"
+    plan_txt += f"; part B: variable Q set to every non-empty sequence of <= {maxlen} of the tokens {list(VTOKENS)} ($W='{ENV_W}', files matching the globs present) and used as {[a for a, _, _ in ENV_FORMS.values()]} on the unthreaded alias directly and through the list alias (single tokens: all six paths), expected = the value substituted verbatim exactly once, 3 s alarm per execution"
     ctx.coverage.update(
         evaluations=evals,
         distinct_nontrivial=nontrivial,
-        rule=f"every string of length <= {maxlen} over the {len(ALPHABET)}-character alphabet (a, blank, tab, newline, both quotes, backslash, $ ~ * ? [ ] {{ }} ( ) & | ; < > ! # = - , @, e-acute, an astral emoji) plus the deletion-closure of the {len(PROBES)} longer probes {PROBES}; each value written in every applicable form of {list(FORMS)} and executed through Execer.exec; {plan_txt}; any case failing on the paths planned is re-run on the remaining delivery paths; non-trivial = values containing at least one non-alphanumeric character that reached the argv comparison in at least one form",
+        rule=f"every string of length <= {maxlen} over the {len(ALPHABET)}-character alphabet (a, blank, tab, newline, both quotes, backslash, $ ~ * ? [ ] {{ }} ( ) & | ; < > ! # = - , @, e-acute, an astral emoji) plus the deletion-closure of the {len(PROBES)} longer probes {PROBES}; each value written in every applicable form of {list(FORMS)} and executed through Execer.exec; six delivery paths: threaded alias, unthreaded alias, real child, and the same recorders reached through a list alias / a string alias (-> unthreaded alias) and a list alias (-> child) that add one fixed argument; {plan_txt}; any case failing on the paths planned is re-run on the remaining delivery paths; non-trivial = values containing at least one non-alphanumeric character that reached the argv comparison in at least one form",
         exhaustive=True,
         values=len(values),
         max_value_length=maxlen,
@@ -743,9 +837,14 @@ def run(ctx):
         cases_middle_position=by_kind["mid"],
         cases_expand_env_vars_false=by_kind["E0"],
         cases_other_positions=by_kind["pos"],
+        cases_variable_values=by_kind["env"],
+        variable_values=len(env_values),
         executions_threaded_alias=by_path["t"],
         executions_unthreaded_alias=by_path["u"],
         executions_real_child=by_path["c"],
+        executions_list_alias_to_alias=by_path["lu"],
+        executions_string_alias_to_alias=by_path["su"],
+        executions_list_alias_to_child=by_path["lc"],
         forms=len(FORMS),
         failing_cases=len(fails),
         distinct_keys=len({k for k, _ in keyed}),
@@ -765,11 +864,14 @@ def replay(rec):
         _PROBE_SET |= _subsequences(p)
     tables.ensure_tables()
     _init_worker()
-    r = run_case(case["form"], case["pos"], case["expand_env_vars"], case["value"], tuple(case["paths"]))
+    value = tuple(case["value"]) if case["form"] in ENV_FORMS else case["value"]
+    r = run_case(case["form"], case["pos"], case["expand_env_vars"], value, tuple(case["paths"]))
     if r is None:
         print("case is skipped by the generator now")
         return 0
-    print("source   :", repr(r["src"]), "(CMD = rect threaded alias / recu unthreaded alias / recc child)")
+    print("source   :", repr(r["src"]), "(CMD = t: rect threaded alias / u: recu unthreaded alias / c: recc child / lu: ['recu','FIX'] / su: 'recu FIX' / lc: ['recc','FIX']; the FIX argument is removed before comparing)")
+    if case["form"] in ENV_FORMS:
+        print("variables: Q =", repr("".join(value)), " W =", repr(ENV_W))
     print("value    :", repr(case["value"]), " $EXPAND_ENV_VARS =", case["expand_env_vars"])
     bad = 0
     for p, o in r["obs"].items():
